@@ -152,6 +152,11 @@ def length_variants(rng, L, unit_bits):
                     else:
                         out.append((ir.DynLen("LEN", False, slope, intercept), {"LEN": ("float", 0.25, x)}))
             out.append((ir.DynLen("LEN", calibrated, None, L - 3 if False else None), {"LEN": ("int", L, L)}))
+            # (b') only one of the two attributes is written: the omitted slope is the schema default 0 (a constant size L whatever
+            # LEN holds), the omitted intercept is 0
+            out.append((ir.DynLen("LEN", calibrated, None, L), {"LEN": ("float", 5.0, 7)}))
+            if L % 8 == 0:
+                out.append((ir.DynLen("LEN", calibrated, 8, None), {"LEN": ("float", float(L // 8), L // 8)}))
     # (c) the referenced VALUE is fractional but the computed length is integral (2.5 "bytes" x 8 = 20 bits)
     for slope, frac in ((8, 0.5), (16, 0.25), (2, 0.5), (8, 0.125), (32, 0.75)):
         for intercept in (0, 4, -int(slope * frac)):
@@ -168,6 +173,12 @@ def length_variants(rng, L, unit_bits):
     out.append((lk, {"MODE": ("int", 3, 3), "FLAG": ("str", "ON", 1)}))
     if L > 0:
         out.append((lk, {"MODE": ("int", 0, 0), "FLAG": ("str", "ON", 1)}))   # no entry matches -> error expected
+    # criteria on the RAW value of a parameter whose derived value is text (an enumeration) or a float: the literal is read in the
+    # type of the raw value
+    lk2 = ir.Lookup((((ir.Comparison("FLAG", "0", "==", False),), L + 8), ((ir.Comparison("FLAG", "1", ">=", False), ir.Comparison("TEMP", "40", "<", False)), L),
+                     ((ir.Comparison("FLAG", "ON"),), L + 24)))
+    out.append((lk2, {"FLAG": ("str", "ON", 1), "TEMP": ("float", 98.6, 37)}))
+    out.append((lk2, {"FLAG": ("str", "ON", 2), "TEMP": ("float", 0.5, 39)}))
     return out
 
 
